@@ -13,8 +13,9 @@ package io
 //@ func ReadIntoGraph
 //@   opt terminates
 //@   requires g != nil && b != nil
-//@   modifies $added
+//@   modifies $added, $parsedOK
 //@   ensures[count-is-triples-added] result0 == $added - old($added)
+//@   ensures[every-parsed-line-is-added] result1 == nil ==> $added - old($added) == $parsedOK - old($parsedOK)
 //@   ensures[no-silent-truncation] result1 == nil ==> !$scanFailed
-//@   loop 0 invariant[count] cnt == $added - old($added)
+//@   loop 0 invariant[count] cnt == $added - old($added) && cnt == $parsedOK - old($parsedOK)
 //@   loop 0 decreases $scanRem
